@@ -81,6 +81,11 @@ func (vc *VC) strLit(s string) Term {
 	vc.DeclareFun(name, nil, SStr)
 	t := Term{name, SStr}
 	vc.axioms = append(vc.axioms, fmt.Sprintf("(= (strlen %s) %d)", name, len(s)))
+	if s == "" {
+		vc.DeclareFun("strlt", []Sort{SStr, SStr}, SBool)
+		vc.axioms = append(vc.axioms, fmt.Sprintf("(forall ((q!s Str)) (! (=> (= (strlen q!s) 0) (= q!s %s)) :pattern ((strlen q!s))))", name))
+		vc.axioms = append(vc.axioms, fmt.Sprintf("(forall ((q!s Str)) (! (not (strlt q!s %s)) :pattern ((strlt q!s %s))))", name, name))
+	}
 	for _, o := range vc.strLits {
 		vc.axioms = append(vc.axioms, fmt.Sprintf("(distinct %s %s)", name, o.S))
 	}
@@ -210,6 +215,12 @@ func (vc *VC) allocObject(st *State, t types.Type) Term {
 	st.assume(Ge(id, IntLit(1)))
 	if t != nil {
 		st.assume(Eq(App(SInt, "dyn", r), IntLit(int64(vc.tt.TID(t)))))
+		if _, isStruct := t.Underlying().(*types.Struct); isStruct {
+			st.assume(Eq(App(SInt, "otype", id), IntLit(int64(vc.tt.TID(t)))))
+		}
+	} else {
+		// untyped allocation: the backing store of a slice / map / boxed interface value
+		st.assume(Lt(App(SInt, "otype", id), IntLit(0)))
 	}
 	return r
 }
